@@ -32,8 +32,18 @@ LEVEL_TEXT = ("theorems (cosine-sum form of both classes, band membership, irfft
               "DC and Nyquist, half-weight Nyquist bin, periodic interpolation consistent iff the period is n*dt, unit "
               "amplitudes give rms^2, thermal rms formula, Rayleigh mean square, same basis = same wave, function of "
               "absolute time) proved over R; the same model text run on Float agrees with pyrex on every sampled input")
-LEVEL_NOTE = ("rayleigh_mean_square assumes E[A_k^2] = 1 for np.random.rayleigh(1/sqrt 2) (named hypothesis) and proves "
-              "the phase integrals; scipy.fft.irfft is modelled by the inverse DFT of the Hermitian completion in its "
+LEVEL_NOTE = ("rayleigh_mean_square takes E[A_k^2] = 1 as a named hypothesis and proves the phase integrals; "
+              "C17_rayleigh_second_moment proves that hypothesis for the Rayleigh density with scale 1/sqrt 2, so what is "
+              "assumed is only that numpy.random.rayleigh samples that density (statistics oracle, 5.4 sigma); "
+              "hypothesis audit: the DC bin (amplitude zeroed) is covered by C17_irfft_is_cos_sum_dc, the Nyquist bin is K4 "
+              "(negation proved), irregular / decreasing / "
+              "zero-step / one-sample / empty time grids are outside 'time grids' (the real code raises IndexError, "
+              "TypeError or ValueError for the last three - the search only requires some exception - and accepts the "
+              "first two without meaning), for the FFT class values between grid times are the linear interpolant, not "
+              "the cosine sum (the property speaks of shared sample times only), uniqueness < 1 is clamped to 1 and "
+              "non-integer values truncated (model and code agree; inf / NaN raise), products (f_max-f_min)*duration*u "
+              "exactly on an integer are generated in the search only (the count N may differ by one between model and "
+              "code through rounding, the property does not fix N); scipy.fft.irfft is modelled by the inverse DFT of the Hermitian completion in its "
               "weighted one-sided form, proved equal to that inverse DFT (C17_irfft_is_hermitian_idft); np.interp(period=) by "
               "reduce/stable sort/wrap/linear interpolation; the period claim is proved in full: consistent at every grid "
               "time of every period for all data iff n*dt = q*P with q coprime to n (C17_fft_period_iff), hence among "
@@ -51,7 +61,7 @@ ASSUMPTIONS = ["E[A^2] = 1 for A ~ numpy.random.rayleigh(1/sqrt(2)) (second mome
 CHECKER_MODULES = ["PyrexVerif.Proofs.Noise", "PyrexVerif.Proofs.NoiseInterp", "PyrexVerif.Proofs.NoiseCollision", "PyrexVerif.Proofs.NoiseImpulse", "PyrexVerif.Proofs.NoisePeriodSuff",
                    "PyrexVerif.Proofs.NoisePeriodIff",
                    "PyrexVerif.Proofs.NoiseHermitian", "PyrexVerif.Proofs.NoiseOrtho", "PyrexVerif.Proofs.NoiseOrthoCont",
-                   "PyrexVerif.Proofs.NoisePhase"]
+                   "PyrexVerif.Proofs.NoisePhase", "PyrexVerif.Proofs.NoiseRayleigh"]
 
 logging.getLogger("pyrex").setLevel(logging.CRITICAL)
 
@@ -313,9 +323,15 @@ def req_for(case, times, amp_tape, phase_tape, ts):
                                                       fw.fl(ts))
 
 
+EXCLUDED_REGIONS = ["irregular, decreasing, zero-step, one-sample and empty time grids (not time grids; the search "
+                    "only requires an exception or the basis waveform)", "uniqueness factors inf / NaN (int() raises)",
+                    "negative frequencies in the band"]
+
+
 def correspondence(run):
     import pyrex  # noqa: F401
     import scipy.constants
+    run.extra["excluded_regions"] = EXCLUDED_REGIONS
     if scipy.constants.k != 1.380649e-23:
         run.note_broken("correspondence: scipy.constants.k = %r differs from the model's constant" % scipy.constants.k)
         return False
@@ -833,6 +849,13 @@ def gen_oracle_input(run, i):
                 "regrids": regrid_specs(run, case, 4)}
     case = rand_case(run, force=rng.choice(["inside", "inside", "touch0", "above", "straddle", "narrow", "edges"]))
     case["band"] = "oracle"
+    if case["cls"] == "full" and case["n"] >= 3 and rng.random() < 0.15:
+        # (f_max - f_min) * duration * uniqueness exactly on an integer: int() of the float product may fall either
+        # way; whatever N results, the published basis must be self-consistent (the oracles do not fix N)
+        dur = (case["n"] - 1) * case["dt"]
+        case["uniq"] = rng.choice([1, 2, 3])
+        case["fmax"] = case["fmin"] + rng.randint(2, 12) / dur
+        case["band"] = "integer-product"
     if rng.random() < 0.06:
         case["spec"] = ["scalarfn", rng.choice([1.0, rng.uniform(0.3, 2.0)])]
     return {"case": case, "seed": rng.randrange(2 ** 31),
@@ -858,6 +881,24 @@ def search(run, deep):
         report(run, inp, res)
         if len([v for v in run.violations if not v[1]]) >= 5:
             return
+    # degenerate time grids are not "time grids": the implementation must raise (any exception type) or, if it ever
+    # answers, answer with the basis waveform; it must not return garbage
+    for cls in ("full", "fft"):
+        for name, tt in (("one-sample", np.array([3e-9])), ("empty", np.array([])), ("zero-step", np.zeros(6))):
+            run.case(("oracle", "degenerate", cls, name))
+            try:
+                np.random.seed(7)
+                nzd = classes()[cls](tt, (1e8, 4e8), rms_voltage=1.0)
+                vd = np.asarray(nzd.values, dtype=float)
+            except Exception:      # noqa: BLE001
+                run.count("degenerate_grid_raises")
+                continue
+            run.count("degenerate_grid_answers")
+            refd = cos_sum(nzd, cls, tt, tt[0] if (cls == "fft" and len(tt)) else 0.0) if len(tt) else np.zeros(0)
+            if len(vd) != len(tt) or not np.all(np.isfinite(vd)) or (cls == "full" and np.max(np.abs(vd - refd), initial=0) > 1e-9):
+                run.fail_input("degenerate", {"cls": cls, "grid": name, "case": {"cls": cls, "band": "degenerate"}},
+                               observed=[float(x) for x in vd[:3]], expected="an exception or the basis waveform",
+                               what="a degenerate time grid (%s) is answered with values that are not the basis waveform" % name)
     for rep in range(3 if deep else 1):
         for cls in ("full", "fft"):
             inp = gen_statistics_input(run, cls)
